@@ -4,6 +4,8 @@ import weakref
 from functools import wraps
 from typing import Callable, TypeVar, cast
 
+from pyhf import _verif
+
 # See https://mypy.readthedocs.io/en/stable/generics.html#declaring-decorators
 TCallable = TypeVar("TCallable", bound=Callable)
 
@@ -61,9 +63,27 @@ class Callables:
                 if arg_ref is None:
                     continue
             _callbacks.append((func, arg))
+        if _verif.ON and len(_callbacks) != len(self._callbacks):
+            _verif.emit(
+                "events.flush",
+                removed=len(self._callbacks) - len(_callbacks),
+                kept=len(_callbacks),
+            )
         self._callbacks = _callbacks
 
     def __call__(self, *args, **kwargs):
+        if _verif.ON:
+            _verif.emit(
+                "events.call",
+                callbacks=[
+                    [
+                        getattr(cb[0](), "__qualname__", None),
+                        id(cb[1]()) if cb[1] is not None else None,
+                        bool(cb[1] is None or cb[1]() is not None),
+                    ]
+                    for cb in self._callbacks
+                ],
+            )
         for func, arg in self._callbacks:
             # weakref: needs to be de-ref'd first before calling
             if arg is not None:
@@ -121,6 +141,16 @@ def subscribe(event: str):
 
     def __decorator(func: TCallable) -> TCallable:
         __events.setdefault(event, Callables()).append(func)
+        if _verif.ON:
+            _verif.emit(
+                "events.subscribe",
+                event=event,
+                func=getattr(func, "__qualname__", None),
+                owner=id(getattr(func, "__self__", None))
+                if hasattr(func, "__self__")
+                else None,
+                n=len(__events[event]._callbacks),
+            )
         return func
 
     return cast(TCallable, __decorator)
@@ -181,6 +211,8 @@ def trigger(event: str) -> Callables:
     """
     global __events, __disabled_events, noop
     is_noop = bool(event in __disabled_events or event not in __events)
+    if _verif.ON:
+        _verif.emit("events.trigger", event=event, noop=is_noop)
     return noop if is_noop else __events.get(event)
 
 
